@@ -27,32 +27,24 @@ Definition w_msg := hx 4 0x929dc55c.
 Definition w_r := hx 32 0x563c4af23b30f92d27ce9121119e1b09e6d3bf547cda6c22b12f4ea92e0b2479.
 Definition w_s := hx 32 0x137f0916974af73a530a3f1e25f991e8a826c9a58114601a50abccf1add0c539.
 
-Example host_ecdsa_accepts : host_ecdsa_verify w_pk w_msg (w_r ++ w_s ++ [n2b 0]) = true.
-Proof. vm_compute. reflexivity. Qed.
-Example substrate_rejects_id4 :
-  substrate_ecdsa_verify w_pk w_msg (w_r ++ w_s ++ [n2b 4]) = false
-  /\ host_ecdsa_guard w_pk w_msg (w_r ++ w_s ++ [n2b 4]) = true.
-Proof. vm_compute. split; reflexivity. Qed.
+Definition w_sig4 : list byte := w_r ++ w_s ++ [n2b 4].
 
-(* gossamer's host function never reads the recovery id, so it also accepts the signature with
-   the invalid id 4 that Substrate rejects *)
+(* one full ECDSA verification (host side); the Substrate side stops at the recovery id *)
+Example host_ecdsa_witness :
+  host_ecdsa_verify w_pk w_msg w_sig4 = true /\ substrate_ecdsa_verify w_pk w_msg w_sig4 = false
+  /\ host_ecdsa_guard w_pk w_msg w_sig4 = true.
+Proof. vm_compute. repeat split; reflexivity. Qed.
+
+(* gossamer's host function never reads the recovery id, so it accepts the honest signature also
+   with the invalid id 4, which Substrate rejects *)
 Lemma host_ecdsa_refuted : exists pk msg sig65,
   host_ecdsa_verify pk msg sig65 = true /\ substrate_ecdsa_verify pk msg sig65 = false
   /\ host_ecdsa_guard pk msg sig65 = true.
-Proof.
-  exists w_pk, w_msg, ((w_r ++ w_s) ++ [n2b 4]).
-  split.
-  - rewrite (host_ecdsa_ignores_recovery_id w_pk w_msg (w_r ++ w_s) (n2b 4) (n2b 0)) by reflexivity.
-    rewrite <- app_assoc. exact host_ecdsa_accepts.
-  - rewrite <- app_assoc. exact substrate_rejects_id4.
-Qed.
+Proof. exists w_pk, w_msg, w_sig4. exact host_ecdsa_witness. Qed.
 
-(* the accepted signature satisfies the verification rules non-vacuously *)
+(* the verification rules are inhabited: the same signature at the library level *)
 Lemma ecdsa_verify_inhabited : exists pk msg sig, secp256k1_verify_signature pk sig msg = true.
 Proof.
-  pose proof host_ecdsa_accepts as H. unfold host_ecdsa_verify in H.
-  destruct (secp256k1_pubkey_verify w_pk (blake2b_hash w_msg) (firstn 64 (w_r ++ w_s ++ [n2b 0]))) eqn:E;
-    try discriminate.
-  destruct (pubkey_verify_ok _ _ _ E) as (q & _ & V).
-  eexists _, _, _. exact V.
+  destruct (host_ecdsa_accepts_inner _ _ _ (proj1 host_ecdsa_witness)) as (q & _ & V).
+  exists (serialize_compressed q), (blake2b_hash w_msg), (firstn 64 w_sig4). exact V.
 Qed.
